@@ -1,6 +1,7 @@
 import Orca.Gen.RefTables
 import Orca.Lemmas.Ops
 import Orca.Lemmas.Preserve
+import Orca.Lemmas.Redirect
 import Orca.Gen.MapSites
 /-!
 # C08 — memory references stay bound to the same memory across edits
@@ -68,5 +69,19 @@ theorem c08_memory_refs_after_any_history (s0 : St) (h0 : StInv s0) (ops : List 
     active data segments; constant expressions take the map but cannot mention a memory -/
 theorem c08_memory_map_uses_reviewed :
     Orca.Gen.mapUsesMemory = ["resolve-special:memory:pass", "tables:memory:pass", "exports:memory:get", "elements:memory:pass", "elements:memory:pass", "code:memory:pass", "code:memory:pass", "code:memory:pass", "code:memory:pass", "code:memory:use", "code:memory:use", "data:memory:get"] := by decide
+
+/-- **an id keeps designating its memory through every operation except its own deletion**, for every history: if position `j`
+    of the memory vector holds `x`, then after any history that does not delete `j` (and does not encode) every emitted memory
+    reference whose stored id is `j` designates `x.uid` in the encoded module, or the encoder fails loudly on a dangling reference.
+    With `c30_returned_ids_designate` this covers the ids handed out by the additions. -/
+theorem c08_ids_are_stable (s0 : St) (h0 : StInv s0) (j : Nat) (x : Item) (hx : s0.m.items[j]? = some x)
+    (ops : List Op) (hs : ∀ o ∈ ops, o ≠ .encode ∧ o ≠ .deleteMem j) :
+    let s := (run s0 ops).1
+    (∃ s' F G M res st, encode s = (s', Ret.encoded F G M res st)
+        ∧ (∀ r' ∈ res ++ st.toList, ∃ r ∈ allRefs s, r'.site = r.site ∧ r'.sp = r.sp
+            ∧ (∃ u, PointsTo s r u ∧ designated F G M r' = some u)
+            ∧ (r.sp = .M → r.idx = j → designated F G M r' = some x.uid)))
+    ∨ (∃ s' why, encode s = (s', Ret.panic why) ∧ ∃ r ∈ allRefs s, Dangling s r) :=
+  encode_designates s0 h0 .M j x hx ops (fun o ho => ⟨fun id h e => (hs o ho).2 (by rw [h, e]), (hs o ho).1⟩)
 
 end Orca.Edit
